@@ -2,54 +2,39 @@
   Wire format between the Python harness and the Lean models (one JSON document per line).
   values:  null | true/false | {"i":"<int>"} | {"f":"<eighths>"} | "str" | [..] | {"m":[[k,v],..]}
 -/
-import Lean.Data.Json
+import Driver.MiniJson
 import Koreo.Json
 
 namespace Koreo.Wire
-open Lean (Json)
+open MiniJson
 
-partial def toJVal (j : Json) : Except String JVal :=
+partial def toJVal (j : J) : Except String JVal :=
   match j with
   | .null => pure .null
   | .bool b => pure (.bool b)
   | .str s => pure (.str s)
-  | .arr xs => do pure (.arr (← xs.toList.mapM toJVal))
+  | .arr xs => do pure (.arr (← xs.mapM toJVal))
   | .num _ => throw "bare number on the wire"
-  | .obj _ =>
-    match j.getObjVal? "i" with
-    | .ok (.str s) => match s.toInt? with
-      | some n => pure (.int n)
-      | none => throw s!"bad int {s}"
-    | _ =>
-    match j.getObjVal? "f" with
-    | .ok (.str s) => match s.toInt? with
-      | some n => pure (.flt n)
-      | none => throw s!"bad float {s}"
-    | _ =>
-    match j.getObjVal? "m" with
-    | .ok (.arr kvs) => do
-      let kvs ← kvs.toList.mapM fun kv => match kv with
-        | .arr #[.str k, v] => do pure (k, ← toJVal v)
-        | _ => throw "bad map entry"
-      pure (.obj kvs)
-    | _ => throw "bad object on the wire"
+  | .obj [("i", .str s)] => match s.toInt? with
+    | some n => pure (.int n)
+    | none => throw s!"bad int {s}"
+  | .obj [("f", .str s)] => match s.toInt? with
+    | some n => pure (.flt n)
+    | none => throw s!"bad float {s}"
+  | .obj [("m", .arr kvs)] => do
+    let kvs ← kvs.mapM fun kv => match kv with
+      | .arr [.str k, v] => do pure (k, ← toJVal v)
+      | _ => throw "bad map entry"
+    pure (.obj kvs)
+  | .obj _ => throw "bad object on the wire"
 
-partial def ofJVal : JVal → Json
+partial def ofJVal : JVal → J
   | .null => .null
   | .bool b => .bool b
-  | .int n => Json.mkObj [("i", .str (toString n))]
-  | .flt e => Json.mkObj [("f", .str (toString e))]
+  | .int n => .obj [("i", .str (toString n))]
+  | .flt e => .obj [("f", .str (toString e))]
   | .str s => .str s
-  | .arr xs => .arr (xs.map ofJVal).toArray
-  | .obj kvs => Json.mkObj [("m", .arr (kvs.map fun (k, v) => Json.arr #[.str k, ofJVal v]).toArray)]
-
-def optStr (j : Json) : Option String :=
-  match j with
-  | .str s => some s
-  | _ => none
-
-def ofOptStr : Option String → Json
-  | some s => .str s
-  | none => .null
+  | .arr xs => .arr (xs.map ofJVal)
+  | .obj kvs => .obj [("m", .arr (kvs.map fun (k, v) => J.arr [.str k, ofJVal v]))]
 
 end Koreo.Wire
